@@ -16,6 +16,9 @@ def base_cases(tier, rng, both_modes=True, tol_only=False, strict_only=False, n_
     for s in gen.exhaustive(gen.ATOMS_D, 3):
         for tol in modes:
             yield {'tol': tol, 'ctx': gen.CONTEXTS['D'], 's': s}
+    for s in gen.exhaustive(gen.ATOMS_E, 3):
+        for tol in modes:
+            yield {'tol': tol, 'ctx': gen.CONTEXTS['E'], 's': s}
     for name in ['A', 'B', 'C', 'default']:
         atoms = gen.atoms_for(name)
         for s in gen.exhaustive(atoms, k_def if name != 'default' else k_def):
@@ -27,8 +30,20 @@ def base_cases(tier, rng, both_modes=True, tol_only=False, strict_only=False, n_
         s = ''.join(rng.choice(WS) for _ in range(rng.randint(2, 9)))
         for name in ('default', 'C'):
             yield {'tol': rng.choice(modes), 'ctx': gen.CONTEXTS[name], 's': s}
+    # non-default parsing states (documented fields of ParsingState that the walker's default leaves alone)
+    PSV = [{'fb': '$'}, {'fb': 'a~'}, {'il': [['\\(', '\\)']], 'fb': '$'}, {'co': False}, {'en': False}, {'mm': False}, {'sp': False},
+           {'nl': False}, {'gd': [['{', '}'], ['<', '>']]}, {'gr': False, 'fb': '{'}, {'dl': [['\\[', '\\]']], 'fb': '$'}]
+    PSA = ['a', ' ', '{', '}', '$', '$$', '~', '%c\n', '\\x', '\\(', '\\)', '<', '>', '\n\n', '\\begin{e}', '\\end{e}', '[', ']']
+    for _ in range(1500 if tier == 'quick' else 30000):
+        s = ''.join(rng.choice(PSA) for _ in range(rng.randint(1, 7)))
+        yield {'tol': rng.choice(modes), 'ctx': gen.CONTEXTS[rng.choice(['default', 'C'])], 's': s, 'ps': rng.choice(PSV)}
+    # unusual first characters: the tree starts at position 0 whatever is there
+    for first in ['\ufeff', '\u200b', '\x00', '\xa0', '\x0c']:
+        for rest in ['', 'a', '\\x{a}', '{a}', ' a', '\n\na', '%c\n', '$x$', '\\begin{e}b\\end{e}', '}', '{']:
+            for tol in modes:
+                yield {'tol': tol, 'ctx': 'default', 's': first + rest}
     n = n_random if n_random is not None else (6000 if tier == 'quick' else 150000)
-    names = ['A', 'B', 'C', 'D', 'default', 'default']
+    names = ['A', 'B', 'C', 'D', 'E', 'default', 'default']
     for _ in range(n):
         name = rng.choice(names)
         yield {'tol': rng.choice(modes), 'ctx': gen.CONTEXTS[name], 's': gen.soup(rng, gen.atoms_for(name), 12)}
